@@ -8,7 +8,11 @@ import SqlObjVerif.Extracted.PyGet
 __setstate__ / _SO_fetchAlternateID / _SO_foreignKey`, the tail of `destroySelf`, `Iteration.next` and the methods
 of `CacheSet` into PyGet programs on every run (`Extracted/PyGet.lean`).  This file RUNS them on a world `GW`
 built around the hand model's state (`Model/Cache.lean`); `Lemmas/GetX*.lean` prove that each of them does what
-the hand model's function for that access path does.
+the hand model's function for that access path does (`GetXBase`: factory calls and the `CacheSet` methods; `GetXGet`:
+`_init`, `get`; `GetXLife`: `__setstate__`, `expire`, the `destroySelf` tail, `__getstate__`; `GetXCreate`:
+`_SO_finishCreate`; `GetXPaths`: alternate id, foreign key, iteration; `GetXModel` / `GetXInv`: the ties to
+`getObj` / `step` and the invariant).  Proved only as far as `CacheSet.clear / weakrefAll / allIDs / allSubCaches*`
+go: translated and runnable (`csCall`), no theorem (their loops range over all factories).
 
 The world: `s` — the hand model's state (rows, factories, objects); `made` — the keys of `CacheSet.caches` (the
 classes that have a `CacheFactory`; `WF`: a class without one has the empty factory in `s`); `lock c` — the lock of
